@@ -326,7 +326,10 @@ def gen_cases(rng, n):
             yield {"par": par, "pool": pool, "hists": [pre + [["incr", 1]] * k + [["r"]], pre + [["incr", k]] + [["r"]]], "incr": k}
         else:
             n_ops = rng.choice([1, 2, 3, 5, 8, 12, 20, 30]) if rng.random() < 0.5 else rng.randint(1, 30)
-            yield {"par": par, "pool": pool, "hists": [gen_ops(rng, par, pool, n_ops)], "incr": None}
+            case = {"par": par, "pool": pool, "hists": [gen_ops(rng, par, pool, n_ops)], "incr": None}
+            if rng.random() < 0.25:
+                case["other"] = gen_params(rng)
+            yield case
 
 
 def gen_ood_cases(rng, n):
@@ -390,6 +393,12 @@ def run_impl(case):
     for ops in case["hists"]:
         t = _mk_target(case["pool"])
         s = Standardiser(t, **kwargs)
+        if case.get("other"):
+            # a second, unrelated instance with other limits (another pipeline in the same process, or the
+            # next layer of a Limiter >> Coarser stack): instances do not influence each other
+            t2 = _mk_target(case["pool"])
+            s2 = Standardiser(t2, **{k: dec(v) for k, v in case["other"].items()})
+            s2.demand = 3
         h = {"ops": [], "obs": [], "end": None}
         res["hists"].append(h)
         todo = []
